@@ -1,5 +1,6 @@
 """C08 - acknowledged data survives a clean restart: the durability protocol (DESIGN.md 5/C08)."""
 from rules import durability as D
+from rules import locking as L
 
 
 def run(ctx):
@@ -9,6 +10,8 @@ def run(ctx):
     D.ord5_flush_order(ctx)
     D.flw4_cursor_values(ctx)
     D.flw5_replay_delete_split(ctx)
+    L.lck1_flush_critical_section(ctx, with_reset=False)
+    L.lck2_ingest_critical_section(ctx)
     return ctx.finish(
         'Static analysis of compiler MIR: structural clauses of the write-ahead protocol that are '
         'necessary for "acknowledged data survives restart" are decided on every CFG path '
